@@ -303,12 +303,12 @@ theorem scan_part_line (name : Str) (hasTopo : Bool) (sizes : List Nat) (hn : Na
     · exact attrOk_mk (by decide) (topoStr_attr hasTopo)
     · exact attrOk_mk (by decide) (joinSp_showNat_attr sizes)
 
-theorem partCreate_printed (sh : Shape) (dim : Nat) (stack : List Frame) (mesh : Option Mesh) {chs : List (Str × Chart)}
+theorem partCreate_printed (sh : Shape) (dim : Nat) (stack : List Frame) (mesh : Option Mesh) {chs : List (Str × Chart)} {wdim : Nat}
     (parts : List (Str × Part)) (pts : List Partition) (line : Nat) (name : Str) (hasTopo : Bool)
     (sizes : List Nat) (hlen : sizes.length = dim + 1) (h64 : ∀ s ∈ sizes, s < 2 ^ 64)
     (hzb : hasTopo = true → zeroBelow sizes = false)
     (hfresh : mapFind strLt name parts = none) :
-    partCreate (mkSt sh dim stack ⟨mesh, parts, pts, chs⟩) line (partMarkup name hasTopo sizes) =
+    partCreate (mkSt sh dim stack ⟨mesh, parts, pts, chs, wdim⟩) line (partMarkup name hasTopo sizes) =
       .ok (⟨name, [], topoTy hasTopo, sizes, List.replicate (dim + 1) none, List.replicate dim none, []⟩, [], []) := by
   have s1 : strLt "name".toList "name".toList = false := by decide
   have s2 : strLt "parent".toList "name".toList = false := by decide
@@ -356,21 +356,21 @@ theorem partCreate_printed (sh : Shape) (dim : Nat) (stack : List Frame) (mesh :
   | false => simp [topoTy]
   | true => simp [topoTy, hzb rfl]
 
-theorem openM_part (sh : Shape) (dim : Nat) (mesh : Option Mesh) {chs : List (Str × Chart)}
+theorem openM_part (sh : Shape) (dim : Nat) (mesh : Option Mesh) {chs : List (Str × Chart)} {wdim : Nat}
     (parts : List (Str × Part)) (pts : List Partition) (line : Nat) (name : Str) (hasTopo : Bool)
     (sizes : List Nat) (hlen : sizes.length = dim + 1) (h64 : ∀ s ∈ sizes, s < 2 ^ 64)
     (hzb : hasTopo = true → zeroBelow sizes = false)
     (hfresh : mapFind strLt name parts = none) :
-    openM (mkSt sh dim [Frame.root] ⟨mesh, parts, pts, chs⟩) line (partMarkup name hasTopo sizes) =
+    openM (mkSt sh dim [Frame.root] ⟨mesh, parts, pts, chs, wdim⟩) line (partMarkup name hasTopo sizes) =
       .ok (mkSt sh dim [Frame.part ⟨name, [], topoTy hasTopo, sizes, List.replicate (dim + 1) none,
-        List.replicate dim none, []⟩, Frame.root] ⟨mesh, parts, pts, chs⟩) := by
+        List.replicate dim none, []⟩, Frame.root] ⟨mesh, parts, pts, chs, wdim⟩) := by
   have hc : checkAttribs line (specOf "MeshPart") (partMarkup name hasTopo sizes).attrs = .ok () := by
     unfold partMarkup
     simp [checkAttribs, specOf]
-  have hm := partCreate_printed (chs := chs) sh dim [Frame.root] mesh parts pts line name hasTopo sizes hlen h64 hzb hfresh
+  have hm := partCreate_printed (chs := chs) (wdim := wdim) sh dim [Frame.root] mesh parts pts line name hasTopo sizes hlen h64 hzb hfresh
   have hn : String.ofList (partMarkup name hasTopo sizes).name = "MeshPart" := String_ofList_toList _
   have hcl : (partMarkup name hasTopo sizes).closed = false := rfl
-  generalize hst : mkSt sh dim [Frame.root] ⟨mesh, parts, pts, chs⟩ = st at hm ⊢
+  generalize hst : mkSt sh dim [Frame.root] ⟨mesh, parts, pts, chs, wdim⟩ = st at hm ⊢
   generalize partMarkup name hasTopo sizes = m at hm hc hn hcl ⊢
   have hstack : st.stack = [Frame.root] := by rw [← hst]; rfl
   unfold openM
@@ -894,13 +894,13 @@ theorem topo_check (sizes : List Nat) (topo : List (List (List Nat)))
 
 theorem closeTop_part_frame (sh : Shape) (dim : Nat) (name : Str) (hasTopo : Bool) (sizes : List Nat)
     (maps : List (List Nat)) (topo : List (List (List Nat))) (attrs : List (Str × Attr))
-    (rs : List Frame) (mesh : Option Mesh) {chs : List (Str × Chart)} (parts : List (Str × Part)) (pts : List Partition) (line : Nat)
+    (rs : List Frame) (mesh : Option Mesh) {chs : List (Str × Chart)} {wdim : Nat} (parts : List (Str × Part)) (pts : List Partition) (line : Nat)
     (hl : sizes.length = maps.length)
     (hm : ∀ d, d < maps.length → (maps.getD d []).length = sizes.getD d 0)
     (ht : hasTopo = true → ∀ i, i < topo.length → (topo.getD i []).length = sizes.getD (i + 1) 0) :
     closeTop (mkSt sh dim (Frame.part ⟨name, [], topoTy hasTopo, sizes, maps.map optOf, topo.map optT, attrs⟩ :: rs)
-        ⟨mesh, parts, pts, chs⟩) line =
-      .ok (mkSt sh dim rs ⟨mesh, mapInsert strLt name ⟨[], hasTopo, sizes, maps, topo, attrs⟩ parts, pts, chs⟩) := by
+        ⟨mesh, parts, pts, chs, wdim⟩) line =
+      .ok (mkSt sh dim rs ⟨mesh, mapInsert strLt name ⟨[], hasTopo, sizes, maps, topo, attrs⟩ parts, pts, chs, wdim⟩) := by
   have h1 := maps_check sizes maps hl hm
   cases hasTopo with
   | false =>
@@ -940,11 +940,11 @@ theorem writePart_eq (name : Str) (hasTopo : Bool) (sizes : List Nat) (maps : Li
 theorem replicate_map_optT (n : Nat) : (List.replicate n ([] : List (List Nat))).map optT = List.replicate n none := by
   simp [optT]
 
-theorem Run_writePart (sh : Shape) (dim : Nat) (mesh : Option Mesh) {chs : List (Str × Chart)} (parts : List (Str × Part))
+theorem Run_writePart (sh : Shape) (dim : Nat) (mesh : Option Mesh) {chs : List (Str × Chart)} {wdim : Nat} (parts : List (Str × Part))
     (pts : List Partition) (name : Str) (p : Part) (hp : PartOkFull sh dim name p) (hdim : dim + 1 < 2 ^ 64)
     (hfresh : ∀ kv ∈ parts, strLt kv.1 name = true) (b : Str) (below : List Str) :
-    Run (writePart name p) (b :: below) (mkSt sh dim [Frame.root] ⟨mesh, parts, pts, chs⟩) (b :: below)
-      (mkSt sh dim [Frame.root] ⟨mesh, parts ++ [(name, p)], pts, chs⟩) := by
+    Run (writePart name p) (b :: below) (mkSt sh dim [Frame.root] ⟨mesh, parts, pts, chs, wdim⟩) (b :: below)
+      (mkSt sh dim [Frame.root] ⟨mesh, parts ++ [(name, p)], pts, chs, wdim⟩) := by
   obtain ⟨chart, hasTopo, sizes, maps, topo, attrs⟩ := p
   obtain ⟨h1, hsl, hml, hlens, htl, htopo1, htopo0, hs64, hm64, hname, hattrs, hasorted, hzb⟩ := hp
   simp only at h1 hsl hml hlens htl htopo1 htopo0 hs64 hm64 hattrs hasorted hzb
@@ -958,10 +958,10 @@ theorem Run_writePart (sh : Shape) (dim : Nat) (mesh : Option Mesh) {chs : List 
       .ok (some (partMarkup name hasTopo sizes)) :=
     scan_part_line name hasTopo sizes hname
   have r1 := Run_open_line (k := 2) (a := 'M') (by decide) hs rfl rfl
-    (fun line => openM_part (chs := chs) sh dim mesh parts pts line name hasTopo sizes hsl hs64 hzb (mapFind_none _ _ hfresh))
+    (fun line => openM_part (chs := chs) (wdim := wdim) sh dim mesh parts pts line name hasTopo sizes hsl hs64 hzb (mapFind_none _ _ hfresh))
     (b :: below)
   have r2 := Run_map_blocks sh dim name (topoTy hasTopo) sizes (List.replicate dim none) [] [Frame.root]
-    ⟨mesh, parts, pts, chs⟩ "MeshPart".toList (b :: below) maps 0 [] rfl (by rw [hml]; omega)
+    ⟨mesh, parts, pts, chs, wdim⟩ "MeshPart".toList (b :: below) maps 0 [] rfl (by rw [hml]; omega)
     (by
       intro j hj
       have := hlens j (by omega)
@@ -970,16 +970,16 @@ theorem Run_writePart (sh : Shape) (dim : Nat) (mesh : Option Mesh) {chs : List 
   rw [hml] at r2
   have r3 : Run (if hasTopo then ptopoBlocks 4 0 topo else []) ("MeshPart".toList :: b :: below)
       (mkSt sh dim [Frame.part ⟨name, [], topoTy hasTopo, sizes, ([] ++ maps).map optOf, List.replicate dim none, []⟩,
-        Frame.root] ⟨mesh, parts, pts, chs⟩) ("MeshPart".toList :: b :: below)
+        Frame.root] ⟨mesh, parts, pts, chs, wdim⟩) ("MeshPart".toList :: b :: below)
       (mkSt sh dim [Frame.part ⟨name, [], topoTy hasTopo, sizes, ([] ++ maps).map optOf, topo.map optT, []⟩,
-        Frame.root] ⟨mesh, parts, pts, chs⟩) := by
+        Frame.root] ⟨mesh, parts, pts, chs, wdim⟩) := by
     cases hasTopo with
     | false =>
       rw [htopo0 rfl, replicate_map_optT]
       exact Run.nil _ _
     | true =>
       have := Run_ptopo_blocks sh dim 4 name (topoTy true) sizes (([] ++ maps).map optOf) [] [Frame.root]
-        ⟨mesh, parts, pts, chs⟩ "MeshPart".toList (b :: below) (by decide) hbound topo 0 [] rfl (by rw [htl]; omega)
+        ⟨mesh, parts, pts, chs, wdim⟩ "MeshPart".toList (b :: below) (by decide) hbound topo 0 [] rfl (by rw [htl]; omega)
         (by
           intro j hj
           have := htopo1 rfl j (by omega)
@@ -987,9 +987,9 @@ theorem Run_writePart (sh : Shape) (dim : Nat) (mesh : Option Mesh) {chs : List 
       rw [htl] at this
       simpa using this
   have r4 := Run_attr_blocks sh dim name (topoTy hasTopo) sizes (([] ++ maps).map optOf) (topo.map optT)
-    [Frame.root] ⟨mesh, parts, pts, chs⟩ "MeshPart".toList (b :: below) attrs [] hattrs (by simpa using hasorted)
+    [Frame.root] ⟨mesh, parts, pts, chs, wdim⟩ "MeshPart".toList (b :: below) attrs [] hattrs (by simpa using hasorted)
   have r5 := Run_close_line (k := 2) (nm := "MeshPart".toList) (by decide)
-    (fun line => closeTop_part_frame (chs := chs) sh dim name hasTopo sizes maps topo attrs [Frame.root] mesh parts pts line
+    (fun line => closeTop_part_frame (chs := chs) (wdim := wdim) sh dim name hasTopo sizes maps topo attrs [Frame.root] mesh parts pts line
       (by omega) (by intro d hd; exact hlens d (by omega))
       (by intro ht i hi; exact (htopo1 ht i (by omega)).1)) b below
   rw [mapInsert_append _ _ _ hfresh] at r5
@@ -999,12 +999,12 @@ theorem Run_writePart (sh : Shape) (dim : Nat) (mesh : Option Mesh) {chs : List 
 def partsLines (parts : List (Str × Part)) : List Str :=
   (parts.map (fun (nm, p) => writePart nm p)).flatten
 
-theorem Run_parts (sh : Shape) (dim : Nat) (mesh : Option Mesh) {chs : List (Str × Chart)} (pts : List Partition) (hdim : dim + 1 < 2 ^ 64)
+theorem Run_parts (sh : Shape) (dim : Nat) (mesh : Option Mesh) {chs : List (Str × Chart)} {wdim : Nat} (pts : List Partition) (hdim : dim + 1 < 2 ^ 64)
     (b : Str) (below : List Str) (todo : List (Str × Part)) :
     ∀ (done : List (Str × Part)), (∀ np ∈ todo, PartOkFull sh dim np.1 np.2) →
     (done ++ todo).Pairwise (fun a b => strLt a.1 b.1 = true) →
-    Run (partsLines todo) (b :: below) (mkSt sh dim [Frame.root] ⟨mesh, done, pts, chs⟩) (b :: below)
-      (mkSt sh dim [Frame.root] ⟨mesh, done ++ todo, pts, chs⟩) := by
+    Run (partsLines todo) (b :: below) (mkSt sh dim [Frame.root] ⟨mesh, done, pts, chs, wdim⟩) (b :: below)
+      (mkSt sh dim [Frame.root] ⟨mesh, done ++ todo, pts, chs, wdim⟩) := by
   induction todo with
   | nil => intro done _ _; simpa [partsLines] using Run.nil _ _
   | cons np todo ih =>
@@ -1013,7 +1013,7 @@ theorem Run_parts (sh : Shape) (dim : Nat) (mesh : Option Mesh) {chs : List (Str
     have hfresh : ∀ kv ∈ done, strLt kv.1 nm = true := by
       intro kv hkv
       exact (List.pairwise_append.1 hsorted).2.2 kv hkv (nm, p) (by simp)
-    have r1 := Run_writePart (chs := chs) sh dim mesh done pts nm p (hp (nm, p) (by simp)) hdim hfresh b below
+    have r1 := Run_writePart (chs := chs) (wdim := wdim) sh dim mesh done pts nm p (hp (nm, p) (by simp)) hdim hfresh b below
     have r2 := ih (done ++ [(nm, p)]) (fun np hnp => hp np (by simp [hnp])) (by simpa using hsorted)
     have := Run.append r1 r2
     simpa [partsLines] using this
@@ -1426,11 +1426,11 @@ theorem openM_partition (sh : Shape) (dim : Nat) (node : Node) (line : Nat) (nam
   simp [← hst, mkSt]
 
 theorem closeTop_partition_frame (sh : Shape) (dim : Nat) (name : Str) (prio level : Int) (nr ne : Nat)
-    (patches : List (List Nat)) (hv : List Bool) (rs : List Frame) (mesh : Option Mesh) {chs : List (Str × Chart)} (parts : List (Str × Part))
+    (patches : List (List Nat)) (hv : List Bool) (rs : List Frame) (mesh : Option Mesh) {chs : List (Str × Chart)} {wdim : Nat} (parts : List (Str × Part))
     (pts : List Partition) (line : Nat) (hall : hv.any (fun b => !b) = false)
     (hsum : (patches.map List.length).sum = ne) :
-    closeTop (mkSt sh dim (Frame.partition name prio level nr ne patches hv :: rs) ⟨mesh, parts, pts, chs⟩) line =
-      .ok (mkSt sh dim rs ⟨mesh, parts, pts ++ [⟨name, prio, level, nr, ne, patches⟩], chs⟩) := by
+    closeTop (mkSt sh dim (Frame.partition name prio level nr ne patches hv :: rs) ⟨mesh, parts, pts, chs, wdim⟩) line =
+      .ok (mkSt sh dim rs ⟨mesh, parts, pts ++ [⟨name, prio, level, nr, ne, patches⟩], chs, wdim⟩) := by
   simp only [closeTop, mkSt, hall, hsum, bne_self_eq_false, Bool.false_eq_true, if_false]
 
 /-! ## Part 10: a whole partition, all partitions -/
@@ -1443,39 +1443,39 @@ theorem writePartition_eq (p : Partition) :
   rw [patchBlocks_eq]
   cases hn : p.name.isEmpty <;> simp [ptOpen, hn]
 
-theorem Run_writePartition (sh : Shape) (dim : Nat) (mesh : Option Mesh) {chs : List (Str × Chart)} (parts : List (Str × Part))
+theorem Run_writePartition (sh : Shape) (dim : Nat) (mesh : Option Mesh) {chs : List (Str × Chart)} {wdim : Nat} (parts : List (Str × Part))
     (pts : List Partition) (p : Partition) (hp : PartitionOk p) (b : Str) (below : List Str) :
-    Run (writePartition p) (b :: below) (mkSt sh dim [Frame.root] ⟨mesh, parts, pts, chs⟩) (b :: below)
-      (mkSt sh dim [Frame.root] ⟨mesh, parts, pts ++ [p], chs⟩) := by
+    Run (writePartition p) (b :: below) (mkSt sh dim [Frame.root] ⟨mesh, parts, pts, chs, wdim⟩) (b :: below)
+      (mkSt sh dim [Frame.root] ⟨mesh, parts, pts ++ [p], chs, wdim⟩) := by
   rw [writePartition_eq]
   obtain ⟨name, prio, level, nr, ne, patches⟩ := p
   obtain ⟨hname, hprio, hlevel, hnr, hne, hlen, hpat, hsum⟩ := hp
   simp only at hname hprio hlevel hnr hne hlen hpat hsum ⊢
   have hs := scan_partition_line name prio level nr ne hname
   have r1 := Run_open_line (k := 2) (a := 'P') (by decide) hs rfl rfl
-    (fun line => openM_partition sh dim ⟨mesh, parts, pts, chs⟩ line name prio level nr ne hprio hlevel hnr hne)
+    (fun line => openM_partition sh dim ⟨mesh, parts, pts, chs, wdim⟩ line name prio level nr ne hprio hlevel hnr hne)
     (b :: below)
-  have r2 := Run_patch_blocks sh dim name prio level nr ne [Frame.root] ⟨mesh, parts, pts, chs⟩
+  have r2 := Run_patch_blocks sh dim name prio level nr ne [Frame.root] ⟨mesh, parts, pts, chs, wdim⟩
     "Partition".toList (b :: below) hnr hne patches 0 [] rfl (by omega) hpat
   rw [hlen] at r2
   have r3 := Run_close_line (k := 2) (nm := "Partition".toList) (by decide)
-    (fun line => closeTop_partition_frame (chs := chs) sh dim name prio level nr ne patches (List.replicate (0 + nr) true)
+    (fun line => closeTop_partition_frame (chs := chs) (wdim := wdim) sh dim name prio level nr ne patches (List.replicate (0 + nr) true)
       [Frame.root] mesh parts pts line (any_not_replicate_true _) hsum)
     b below
   exact Run.append (Run.append r1 r2) r3
 
 def ptsLines (pts : List Partition) : List Str := (pts.map writePartition).flatten
 
-theorem Run_partitions (sh : Shape) (dim : Nat) (mesh : Option Mesh) {chs : List (Str × Chart)} (parts : List (Str × Part))
+theorem Run_partitions (sh : Shape) (dim : Nat) (mesh : Option Mesh) {chs : List (Str × Chart)} {wdim : Nat} (parts : List (Str × Part))
     (b : Str) (below : List Str) (todo : List Partition) :
     ∀ (done : List Partition), (∀ p ∈ todo, PartitionOk p) →
-    Run (ptsLines todo) (b :: below) (mkSt sh dim [Frame.root] ⟨mesh, parts, done, chs⟩) (b :: below)
-      (mkSt sh dim [Frame.root] ⟨mesh, parts, done ++ todo, chs⟩) := by
+    Run (ptsLines todo) (b :: below) (mkSt sh dim [Frame.root] ⟨mesh, parts, done, chs, wdim⟩) (b :: below)
+      (mkSt sh dim [Frame.root] ⟨mesh, parts, done ++ todo, chs, wdim⟩) := by
   induction todo with
   | nil => intro done _; simpa [ptsLines] using Run.nil _ _
   | cons p todo ih =>
     intro done hp
-    have r1 := Run_writePartition (chs := chs) sh dim mesh parts done p (hp p (by simp)) b below
+    have r1 := Run_writePartition (chs := chs) (wdim := wdim) sh dim mesh parts done p (hp p (by simp)) b below
     have r2 := ih (done ++ [p]) (fun q hq => hp q (by simp [hq]))
     have := Run.append r1 r2
     simpa [ptsLines] using this
@@ -1616,34 +1616,34 @@ theorem nl_ptsLines (pts : List Partition) (hp : ∀ p ∈ pts, PartitionOk p) :
 
 /-! ## Part 12: assembling the round trip -/
 
-def bodyLines (sh : Shape) (dim : Nat) (m : Mesh) (parts : List (Str × Part)) (pts : List Partition) : List Str :=
-  writeMesh sh dim m ++ partsLines parts ++ ptsLines pts
+def bodyLines (sh : Shape) (dim wdim : Nat) (m : Mesh) (parts : List (Str × Part)) (pts : List Partition) : List Str :=
+  writeMesh sh dim wdim m ++ partsLines parts ++ ptsLines pts
 
-theorem writeLines_node (sh : Shape) (dim : Nat) (m : Mesh) (parts : List (Str × Part)) (pts : List Partition) :
-    writeLines sh dim { mesh := some m, parts := parts, partitions := pts } =
-      rootLine sh dim :: (bodyLines sh dim m parts pts ++ ["</FeatMeshFile>".toList]) := by
+theorem writeLines_node (sh : Shape) (dim wdim : Nat) (m : Mesh) (parts : List (Str × Part)) (pts : List Partition) :
+    writeLines sh dim { mesh := some m, parts := parts, partitions := pts, wdim := wdim } =
+      rootLine sh dim wdim :: (bodyLines sh dim wdim m parts pts ++ ["</FeatMeshFile>".toList]) := by
   unfold writeLines rootLine bodyLines partsLines ptsLines
   dsimp only
   simp only [List.cons_append, List.nil_append, List.append_assoc, List.map_nil, List.flatten_nil]
 
-theorem nl_rootLine {sh : Shape} {dim : Nat} (hs : supported sh (dim : Int) (dim : Int) = true) :
-    '\n' ∉ rootLine sh dim := by
+theorem nl_rootLine {sh : Shape} {dim wdim : Nat} (hs : supported sh (dim : Int) (wdim : Int) = true) :
+    '\n' ∉ rootLine sh dim wdim := by
   apply nl_writeLines hs ⟨[], [], []⟩
   rw [writeLines_mesh]
   simp
 
-structure NodeOk (sh : Shape) (dim : Nat) (m : Mesh) (parts : List (Str × Part)) (pts : List Partition) : Prop where
-  hwf : m.wf sh dim = true
+structure NodeOk (sh : Shape) (dim wdim : Nat) (m : Mesh) (parts : List (Str × Part)) (pts : List Partition) : Prop where
+  hwf : m.wf sh dim wdim = true
   h64 : ∀ s ∈ m.sizes, s < 2 ^ 64
   hp : ∀ np ∈ parts, PartOkFull sh dim np.1 np.2
   hsorted : parts.Pairwise (fun a b => strLt a.1 b.1 = true)
   hpt : ∀ p ∈ pts, PartitionOk p
   hzb : zeroBelow m.sizes = false
-  hmap : mapOutOfRange ⟨some m, parts, pts, []⟩ = false
+  hmap : mapOutOfRange ⟨some m, parts, pts, [], wdim⟩ = false
 
-theorem nl_bodyLines {sh : Shape} {dim : Nat} (hs : supported sh (dim : Int) (dim : Int) = true) {m : Mesh}
-    {parts : List (Str × Part)} {pts : List Partition} (h : NodeOk sh dim m parts pts) :
-    ∀ l ∈ bodyLines sh dim m parts pts, '\n' ∉ l := by
+theorem nl_bodyLines {sh : Shape} {dim wdim : Nat} (hs : supported sh (dim : Int) (wdim : Int) = true) {m : Mesh}
+    {parts : List (Str × Part)} {pts : List Partition} (h : NodeOk sh dim wdim m parts pts) :
+    ∀ l ∈ bodyLines sh dim wdim m parts pts, '\n' ∉ l := by
   intro l hl
   simp only [bodyLines, List.mem_append] at hl
   rcases hl with (hl | hl) | hl
@@ -1651,10 +1651,10 @@ theorem nl_bodyLines {sh : Shape} {dim : Nat} (hs : supported sh (dim : Int) (di
   · exact nl_partsLines sh dim parts h.hp l hl
   · exact nl_ptsLines pts h.hpt l hl
 
-theorem splitLines_node {sh : Shape} {dim : Nat} (hs : supported sh (dim : Int) (dim : Int) = true) {m : Mesh}
-    {parts : List (Str × Part)} {pts : List Partition} (h : NodeOk sh dim m parts pts) :
-    splitLines (printMeshFile sh dim { mesh := some m, parts := parts, partitions := pts }) =
-      rootLine sh dim :: (bodyLines sh dim m parts pts ++ ["</FeatMeshFile>".toList]) ++ [[]] := by
+theorem splitLines_node {sh : Shape} {dim wdim : Nat} (hs : supported sh (dim : Int) (wdim : Int) = true) {m : Mesh}
+    {parts : List (Str × Part)} {pts : List Partition} (h : NodeOk sh dim wdim m parts pts) :
+    splitLines (printMeshFile sh dim { mesh := some m, parts := parts, partitions := pts, wdim := wdim }) =
+      rootLine sh dim wdim :: (bodyLines sh dim wdim m parts pts ++ ["</FeatMeshFile>".toList]) ++ [[]] := by
   unfold splitLines printMeshFile
   rw [writeLines_node, splitChar_flatMap '\n']
   intro l hl
@@ -1664,48 +1664,50 @@ theorem splitLines_node {sh : Shape} {dim : Nat} (hs : supported sh (dim : Int) 
   · exact nl_bodyLines hs h l hl
   · decide
 
-theorem Run_body {sh : Shape} {dim : Nat} (hs : supported sh (dim : Int) (dim : Int) = true) {m : Mesh}
-    {parts : List (Str × Part)} {pts : List Partition} (h : NodeOk sh dim m parts pts) (b : Str)
+theorem Run_body {sh : Shape} {dim wdim : Nat} (hs : supported sh (dim : Int) (wdim : Int) = true) {m : Mesh}
+    {parts : List (Str × Part)} {pts : List Partition} (h : NodeOk sh dim wdim m parts pts) (b : Str)
     (below : List Str) :
-    Run (bodyLines sh dim m parts pts) (b :: below) (mkSt sh dim [Frame.root] emptyNode) (b :: below)
-      (mkSt sh dim [Frame.root] { mesh := some m, parts := parts, partitions := pts }) := by
+    Run (bodyLines sh dim wdim m parts pts) (b :: below) (mkSt sh dim [Frame.root] (emptyNode wdim)) (b :: below)
+      (mkSt sh dim [Frame.root] { mesh := some m, parts := parts, partitions := pts, wdim := wdim }) := by
   have hdim : dim + 1 < 2 ^ 64 := by
-    rcases supported_cases hs with ⟨-, rfl⟩ | ⟨-, rfl⟩ | ⟨-, rfl⟩ | ⟨-, rfl⟩ | ⟨-, rfl⟩ <;> decide
+    have := supported_pos hs
+    have : (4 : Nat) < 2 ^ 64 := by decide
+    omega
   have r1 := Run_writeMesh hs m h.hwf h.h64 h.hzb b below
-  have r2 := Run_parts (chs := []) sh dim (some m) [] hdim b below parts [] h.hp (by simpa using h.hsorted)
-  have r3 := Run_partitions (chs := []) sh dim (some m) parts b below pts [] h.hpt
+  have r2 := Run_parts (chs := []) (wdim := wdim) sh dim (some m) [] hdim b below parts [] h.hp (by simpa using h.hsorted)
+  have r3 := Run_partitions (chs := []) (wdim := wdim) sh dim (some m) parts b below pts [] h.hpt
   have := Run.append (Run.append r1 r2) r3
   simpa [bodyLines] using this
 
-theorem scanLoop_node {sh : Shape} {dim : Nat} (hs : supported sh (dim : Int) (dim : Int) = true) {m : Mesh}
-    {parts : List (Str × Part)} {pts : List Partition} (h : NodeOk sh dim m parts pts) (i : Nat) :
-    scanLoop meshClient (bodyLines sh dim m parts pts ++ ["</FeatMeshFile>".toList] ++ [[]]) i
-      ["FeatMeshFile".toList] (mkSt sh dim [Frame.root] emptyNode) =
-      .ok (mkSt sh dim [] { mesh := some m, parts := parts, partitions := pts }) := by
+theorem scanLoop_node {sh : Shape} {dim wdim : Nat} (hs : supported sh (dim : Int) (wdim : Int) = true) {m : Mesh}
+    {parts : List (Str × Part)} {pts : List Partition} (h : NodeOk sh dim wdim m parts pts) (i : Nat) :
+    scanLoop meshClient (bodyLines sh dim wdim m parts pts ++ ["</FeatMeshFile>".toList] ++ [[]]) i
+      ["FeatMeshFile".toList] (mkSt sh dim [Frame.root] (emptyNode wdim)) =
+      .ok (mkSt sh dim [] { mesh := some m, parts := parts, partitions := pts, wdim := wdim }) := by
   obtain ⟨j, hj⟩ := Run_body hs h "FeatMeshFile".toList [] (["</FeatMeshFile>".toList] ++ [[]]) i
   rw [List.append_assoc, hj]
   have e : "</FeatMeshFile>".toList = '<' :: (('/' :: "FeatMeshFile".toList) ++ ['>']) := by decide
   rw [e]
   exact final_close_line (by decide) (fun line => closeTop_root_frame sh dim _ line) _ j
 
-theorem parseBody_node {sh : Shape} {dim : Nat} (hs : supported sh (dim : Int) (dim : Int) = true) {m : Mesh}
-    {parts : List (Str × Part)} {pts : List Partition} (h : NodeOk sh dim m parts pts) (i : Nat) :
-    parseBody sh dim (rootMarkup sh dim) i (bodyLines sh dim m parts pts ++ ["</FeatMeshFile>".toList] ++ [[]]) =
-      .ok sh dim { mesh := some m, parts := parts, partitions := pts } := by
-  have hc : checkAttribs i (specOf "root") (rootMarkup sh dim).attrs = .ok () := by
+theorem parseBody_node {sh : Shape} {dim wdim : Nat} (hs : supported sh (dim : Int) (wdim : Int) = true) {m : Mesh}
+    {parts : List (Str × Part)} {pts : List Partition} (h : NodeOk sh dim wdim m parts pts) (i : Nat) :
+    parseBody sh dim wdim (rootMarkup sh dim wdim) i (bodyLines sh dim wdim m parts pts ++ ["</FeatMeshFile>".toList] ++ [[]]) =
+      .ok sh dim { mesh := some m, parts := parts, partitions := pts, wdim := wdim } := by
+  have hc : checkAttribs i (specOf "root") (rootMarkup sh dim wdim).attrs = .ok () := by
     unfold rootMarkup
     simp [checkAttribs, specOf]
-  have hn : (rootMarkup sh dim).name = "FeatMeshFile".toList := rfl
+  have hn : (rootMarkup sh dim wdim).name = "FeatMeshFile".toList := rfl
   have hl := scanLoop_node hs h i
   unfold mkSt emptyNode at hl
   unfold parseBody
   simp only [hc, hn, hl]
   simp [h.hmap, resolveLinks, resolveDeduct]
 
-theorem parse_print_of_NodeOk {sh : Shape} {dim : Nat} (hs : supported sh (dim : Int) (dim : Int) = true) {m : Mesh}
-    {parts : List (Str × Part)} {pts : List Partition} (h : NodeOk sh dim m parts pts) :
-    parseMeshFile (printMeshFile sh dim { mesh := some m, parts := parts, partitions := pts })
-      = .ok sh dim { mesh := some m, parts := parts, partitions := pts } := by
+theorem parse_print_of_NodeOk {sh : Shape} {dim wdim : Nat} (hs : supported sh (dim : Int) (wdim : Int) = true) {m : Mesh}
+    {parts : List (Str × Part)} {pts : List Partition} (h : NodeOk sh dim wdim m parts pts) :
+    parseMeshFile (printMeshFile sh dim { mesh := some m, parts := parts, partitions := pts, wdim := wdim })
+      = .ok sh dim { mesh := some m, parts := parts, partitions := pts, wdim := wdim } := by
   unfold parseMeshFile
   rw [splitLines_node hs h, List.cons_append, readRoot_print hs]
   simp only [rootType_print hs, hs, Bool.not_true, Bool.false_eq_true, if_false, Int.toNat_natCast]
@@ -1727,16 +1729,16 @@ def rootLine0 : Str := "<FeatMeshFile version=\"1\"".toList ++ [] ++ ">".toList
 
 def rootMarkup0 : Markup := ⟨"FeatMeshFile".toList, [("version".toList, ['1'])], false, false⟩
 
-theorem writeLines_nomesh (sh : Shape) (dim : Nat) (parts : List (Str × Part)) (pts : List Partition) :
-    writeLines sh dim { mesh := none, parts := parts, partitions := pts } =
+theorem writeLines_nomesh (sh : Shape) (dim wdim : Nat) (parts : List (Str × Part)) (pts : List Partition) :
+    writeLines sh dim { mesh := none, parts := parts, partitions := pts, wdim := wdim } =
       rootLine0 :: (partsLines parts ++ ptsLines pts ++ ["</FeatMeshFile>".toList]) := by
   unfold writeLines rootLine0 partsLines ptsLines
   dsimp only
   simp only [List.cons_append, List.nil_append, List.append_assoc, List.append_nil, List.map_nil, List.flatten_nil]
 
-theorem splitLines_nomesh (sh : Shape) (dim : Nat) (parts : List (Str × Part)) (pts : List Partition)
+theorem splitLines_nomesh (sh : Shape) (dim wdim : Nat) (parts : List (Str × Part)) (pts : List Partition)
     (hp : ∀ np ∈ parts, PartOkFull sh dim np.1 np.2) (hpt : ∀ p ∈ pts, PartitionOk p) :
-    splitLines (printMeshFile sh dim { mesh := none, parts := parts, partitions := pts }) =
+    splitLines (printMeshFile sh dim { mesh := none, parts := parts, partitions := pts, wdim := wdim }) =
       rootLine0 :: (partsLines parts ++ ptsLines pts ++ ["</FeatMeshFile>".toList]) ++ [[]] := by
   unfold splitLines printMeshFile
   rw [writeLines_nomesh, splitChar_flatMap '\n']
@@ -1771,22 +1773,22 @@ theorem rootType_nomesh (line : Nat) : rootType line rootMarkup0 = .ok none := b
   simp only [hn, a1, a2, hv]
   simp
 
-theorem parseBody_nomesh (sh : Shape) (dim : Nat) (hdim : dim + 1 < 2 ^ 64) (parts : List (Str × Part))
+theorem parseBody_nomesh (sh : Shape) (dim wdim : Nat) (hdim : dim + 1 < 2 ^ 64) (parts : List (Str × Part))
     (pts : List Partition) (hp : ∀ np ∈ parts, PartOkFull sh dim np.1 np.2)
     (hsorted : parts.Pairwise (fun a b => strLt a.1 b.1 = true)) (hpt : ∀ p ∈ pts, PartitionOk p) (i : Nat) :
-    parseBody sh dim rootMarkup0 i (partsLines parts ++ ptsLines pts ++ ["</FeatMeshFile>".toList] ++ [[]]) =
-      .ok sh dim { mesh := none, parts := parts, partitions := pts } := by
+    parseBody sh dim wdim rootMarkup0 i (partsLines parts ++ ptsLines pts ++ ["</FeatMeshFile>".toList] ++ [[]]) =
+      .ok sh dim { mesh := none, parts := parts, partitions := pts, wdim := wdim } := by
   have hc : checkAttribs i (specOf "root") rootMarkup0.attrs = .ok () := by
     unfold rootMarkup0
     simp [checkAttribs, specOf]
   have hn : rootMarkup0.name = "FeatMeshFile".toList := rfl
-  have r2 := Run_parts (chs := []) sh dim none [] hdim "FeatMeshFile".toList [] parts [] hp (by simpa using hsorted)
-  have r3 := Run_partitions (chs := []) sh dim none parts "FeatMeshFile".toList [] pts [] hpt
+  have r2 := Run_parts (chs := []) (wdim := wdim) sh dim none [] hdim "FeatMeshFile".toList [] parts [] hp (by simpa using hsorted)
+  have r3 := Run_partitions (chs := []) (wdim := wdim) sh dim none parts "FeatMeshFile".toList [] pts [] hpt
   obtain ⟨j, hj⟩ := Run.append r2 r3 (["</FeatMeshFile>".toList] ++ [[]]) i
   have e : "</FeatMeshFile>".toList = '<' :: (('/' :: "FeatMeshFile".toList) ++ ['>']) := by decide
   have hl : scanLoop meshClient (partsLines parts ++ ptsLines pts ++ ["</FeatMeshFile>".toList] ++ [[]]) i
-      ["FeatMeshFile".toList] (mkSt sh dim [Frame.root] emptyNode) =
-      .ok (mkSt sh dim [] { mesh := none, parts := parts, partitions := pts }) := by
+      ["FeatMeshFile".toList] (mkSt sh dim [Frame.root] (emptyNode wdim)) =
+      .ok (mkSt sh dim [] { mesh := none, parts := parts, partitions := pts, wdim := wdim }) := by
     rw [List.append_assoc]
     simp only [List.nil_append] at hj
     unfold emptyNode
@@ -1806,105 +1808,105 @@ namespace FeatModel.C11
 /-- **Stage A: parse ∘ print = id** for a file with a root mesh and mesh parts that carry target mappings
     (no chart, no own topology, no attribute sets), names strictly increasing w.r.t. `strLt`
     (the order of the `std::map`) -/
-theorem parse_print_parts (sh : Shape) (dim : Nat) (m : Mesh) (parts : List (Str × Part))
-    (hs : supported sh (dim : Int) (dim : Int) = true)
-    (hwf : m.wf sh dim = true)
+theorem parse_print_parts (sh : Shape) (dim wdim : Nat) (m : Mesh) (parts : List (Str × Part))
+    (hs : supported sh (dim : Int) (wdim : Int) = true)
+    (hwf : m.wf sh dim wdim = true)
     (h64 : ∀ s ∈ m.sizes, s < 2 ^ 64)
     (hzb : zeroBelow m.sizes = false)
     (hp : ∀ np ∈ parts, PartOk dim np.1 np.2)
     (hsorted : parts.Pairwise (fun a b => strLt a.1 b.1 = true))
-    (hmap : mapOutOfRange ⟨some m, parts, [], []⟩ = false) :
-    parseMeshFile (printMeshFile sh dim { mesh := some m, parts := parts, partitions := [] })
-      = .ok sh dim { mesh := some m, parts := parts, partitions := [] } :=
+    (hmap : mapOutOfRange ⟨some m, parts, [], [], wdim⟩ = false) :
+    parseMeshFile (printMeshFile sh dim { mesh := some m, parts := parts, partitions := [], wdim := wdim })
+      = .ok sh dim { mesh := some m, parts := parts, partitions := [], wdim := wdim } :=
   RT2.parse_print_of_NodeOk hs
     ⟨hwf, h64, fun np h => RT2.PartOk.toFull (hp np h), hsorted, fun _ h => absurd h (by simp), hzb, hmap⟩
 
 /-- **Stage B: parse ∘ print = id** for a file with a root mesh, mesh parts with mappings, and partitions -/
-theorem parse_print_node (sh : Shape) (dim : Nat) (m : Mesh) (parts : List (Str × Part))
+theorem parse_print_node (sh : Shape) (dim wdim : Nat) (m : Mesh) (parts : List (Str × Part))
     (partitions : List Partition)
-    (hs : supported sh (dim : Int) (dim : Int) = true)
-    (hwf : m.wf sh dim = true)
+    (hs : supported sh (dim : Int) (wdim : Int) = true)
+    (hwf : m.wf sh dim wdim = true)
     (h64 : ∀ s ∈ m.sizes, s < 2 ^ 64)
     (hzb : zeroBelow m.sizes = false)
     (hp : ∀ np ∈ parts, PartOk dim np.1 np.2)
     (hsorted : parts.Pairwise (fun a b => strLt a.1 b.1 = true))
     (hpt : ∀ p ∈ partitions, PartitionOk p)
-    (hmap : mapOutOfRange ⟨some m, parts, partitions, []⟩ = false) :
-    parseMeshFile (printMeshFile sh dim { mesh := some m, parts := parts, partitions := partitions })
-      = .ok sh dim { mesh := some m, parts := parts, partitions := partitions } :=
+    (hmap : mapOutOfRange ⟨some m, parts, partitions, [], wdim⟩ = false) :
+    parseMeshFile (printMeshFile sh dim { mesh := some m, parts := parts, partitions := partitions, wdim := wdim })
+      = .ok sh dim { mesh := some m, parts := parts, partitions := partitions, wdim := wdim } :=
   RT2.parse_print_of_NodeOk hs ⟨hwf, h64, fun np h => RT2.PartOk.toFull (hp np h), hsorted, hpt, hzb, hmap⟩
 
 /-- **Stage C1: parse ∘ print = id** for a file with a root mesh, mesh parts with mappings, own (full) topology
     and attribute sets, and partitions -/
-theorem parse_print_node_full (sh : Shape) (dim : Nat) (m : Mesh) (parts : List (Str × Part))
+theorem parse_print_node_full (sh : Shape) (dim wdim : Nat) (m : Mesh) (parts : List (Str × Part))
     (partitions : List Partition)
-    (hs : supported sh (dim : Int) (dim : Int) = true)
-    (hwf : m.wf sh dim = true)
+    (hs : supported sh (dim : Int) (wdim : Int) = true)
+    (hwf : m.wf sh dim wdim = true)
     (h64 : ∀ s ∈ m.sizes, s < 2 ^ 64)
     (hzb : zeroBelow m.sizes = false)
     (hp : ∀ np ∈ parts, PartOkFull sh dim np.1 np.2)
     (hsorted : parts.Pairwise (fun a b => strLt a.1 b.1 = true))
     (hpt : ∀ p ∈ partitions, PartitionOk p)
-    (hmap : mapOutOfRange ⟨some m, parts, partitions, []⟩ = false) :
-    parseMeshFile (printMeshFile sh dim { mesh := some m, parts := parts, partitions := partitions })
-      = .ok sh dim { mesh := some m, parts := parts, partitions := partitions } :=
+    (hmap : mapOutOfRange ⟨some m, parts, partitions, [], wdim⟩ = false) :
+    parseMeshFile (printMeshFile sh dim { mesh := some m, parts := parts, partitions := partitions, wdim := wdim })
+      = .ok sh dim { mesh := some m, parts := parts, partitions := partitions, wdim := wdim } :=
   RT2.parse_print_of_NodeOk hs ⟨hwf, h64, hp, hsorted, hpt, hzb, hmap⟩
 
 /-- **Stage C2: files without a root mesh.**  The written root markup carries no `mesh` attribute, so the first
     parse cannot pick a mesh type; the second-generation parse with the known type gives the node back. -/
-theorem reparse_print_nomesh (sh : Shape) (dim : Nat) (parts : List (Str × Part)) (partitions : List Partition)
+theorem reparse_print_nomesh (sh : Shape) (dim wdim : Nat) (parts : List (Str × Part)) (partitions : List Partition)
     (hdim : dim + 1 < 2 ^ 64)
     (hp : ∀ np ∈ parts, PartOkFull sh dim np.1 np.2)
     (hsorted : parts.Pairwise (fun a b => strLt a.1 b.1 = true))
     (hpt : ∀ p ∈ partitions, PartitionOk p) :
-    parseMeshFile (printMeshFile sh dim { mesh := none, parts := parts, partitions := partitions }) = .notype ∧
-    reparse sh dim (printMeshFile sh dim { mesh := none, parts := parts, partitions := partitions })
-      = .ok sh dim { mesh := none, parts := parts, partitions := partitions } := by
+    parseMeshFile (printMeshFile sh dim { mesh := none, parts := parts, partitions := partitions, wdim := wdim }) = .notype ∧
+    reparse sh dim wdim (printMeshFile sh dim { mesh := none, parts := parts, partitions := partitions, wdim := wdim })
+      = .ok sh dim { mesh := none, parts := parts, partitions := partitions, wdim := wdim } := by
   constructor
   · unfold parseMeshFile
-    rw [RT2.splitLines_nomesh sh dim parts partitions hp hpt, List.cons_append, RT2.readRoot_nomesh]
+    rw [RT2.splitLines_nomesh sh dim wdim parts partitions hp hpt, List.cons_append, RT2.readRoot_nomesh]
     simp only [RT2.rootType_nomesh]
   · unfold reparse
-    rw [RT2.splitLines_nomesh sh dim parts partitions hp hpt, List.cons_append, RT2.readRoot_nomesh]
+    rw [RT2.splitLines_nomesh sh dim wdim parts partitions hp hpt, List.cons_append, RT2.readRoot_nomesh]
     simp only [RT2.rootType_nomesh]
-    exact RT2.parseBody_nomesh sh dim hdim parts partitions hp hsorted hpt 1
+    exact RT2.parseBody_nomesh sh dim wdim hdim parts partitions hp hsorted hpt 1
 
 /-- **print ∘ parse ∘ print = print** (byte for byte), strongest stage with a root mesh -/
-theorem print_parse_print_node (sh : Shape) (dim : Nat) (m : Mesh) (parts : List (Str × Part))
+theorem print_parse_print_node (sh : Shape) (dim wdim : Nat) (m : Mesh) (parts : List (Str × Part))
     (partitions : List Partition)
-    (hs : supported sh (dim : Int) (dim : Int) = true)
-    (hwf : m.wf sh dim = true)
+    (hs : supported sh (dim : Int) (wdim : Int) = true)
+    (hwf : m.wf sh dim wdim = true)
     (h64 : ∀ s ∈ m.sizes, s < 2 ^ 64)
     (hzb : zeroBelow m.sizes = false)
     (hp : ∀ np ∈ parts, PartOkFull sh dim np.1 np.2)
     (hsorted : parts.Pairwise (fun a b => strLt a.1 b.1 = true))
     (hpt : ∀ p ∈ partitions, PartitionOk p)
-    (hmap : mapOutOfRange ⟨some m, parts, partitions, []⟩ = false) :
+    (hmap : mapOutOfRange ⟨some m, parts, partitions, [], wdim⟩ = false) :
     ∀ sh' dim' n',
-      parseMeshFile (printMeshFile sh dim { mesh := some m, parts := parts, partitions := partitions })
+      parseMeshFile (printMeshFile sh dim { mesh := some m, parts := parts, partitions := partitions, wdim := wdim })
         = .ok sh' dim' n' →
       printMeshFile sh' dim' n' =
-        printMeshFile sh dim { mesh := some m, parts := parts, partitions := partitions } := by
+        printMeshFile sh dim { mesh := some m, parts := parts, partitions := partitions, wdim := wdim } := by
   intro sh' dim' n' h
-  rw [parse_print_node_full sh dim m parts partitions hs hwf h64 hzb hp hsorted hpt hmap] at h
+  rw [parse_print_node_full sh dim wdim m parts partitions hs hwf h64 hzb hp hsorted hpt hmap] at h
   injection h with h1 h2 h3
   subst h1 h2 h3
   rfl
 
 /-- **print ∘ reparse ∘ print = print** (byte for byte) for files without a root mesh -/
-theorem print_reparse_print_nomesh (sh : Shape) (dim : Nat) (parts : List (Str × Part))
+theorem print_reparse_print_nomesh (sh : Shape) (dim wdim : Nat) (parts : List (Str × Part))
     (partitions : List Partition)
     (hdim : dim + 1 < 2 ^ 64)
     (hp : ∀ np ∈ parts, PartOkFull sh dim np.1 np.2)
     (hsorted : parts.Pairwise (fun a b => strLt a.1 b.1 = true))
     (hpt : ∀ p ∈ partitions, PartitionOk p) :
     ∀ sh' dim' n',
-      reparse sh dim (printMeshFile sh dim { mesh := none, parts := parts, partitions := partitions })
+      reparse sh dim wdim (printMeshFile sh dim { mesh := none, parts := parts, partitions := partitions, wdim := wdim })
         = .ok sh' dim' n' →
       printMeshFile sh' dim' n' =
-        printMeshFile sh dim { mesh := none, parts := parts, partitions := partitions } := by
+        printMeshFile sh dim { mesh := none, parts := parts, partitions := partitions, wdim := wdim } := by
   intro sh' dim' n' h
-  rw [(reparse_print_nomesh sh dim parts partitions hdim hp hsorted hpt).2] at h
+  rw [(reparse_print_nomesh sh dim wdim parts partitions hdim hp hsorted hpt).2] at h
   injection h with h1 h2 h3
   subst h1 h2 h3
   rfl
